@@ -36,6 +36,22 @@ pub struct ExecPlan {
     /// add a scheduling point (sleep(0)) inside every loader lookup
     pub yield_in_loader: bool,
     pub tasks: Vec<Vec<Item>>,
+    /// the clock of this simulated process: (monotonic ns, wall ns, step per reading); None = reference clock
+    #[serde(default)]
+    pub clock: Option<(u64, u64, u64)>,
+}
+
+/// The clock every reference execution runs under.
+pub const REF_CLOCK: (u64, u64, u64) = (1_000_000, 1_700_000_000_000_000_000, 1_000);
+
+pub fn draw_clock(rng: &mut vcommon::Rng) -> (u64, u64, u64) {
+    let wall = match rng.below(4) {
+        0 => 0,
+        1 => 1_700_000_000_000_000_000 - rng.below(1 << 50),
+        2 => 4_102_444_800_000_000_000 + rng.below(1 << 40),
+        _ => rng.below(1 << 62),
+    };
+    (rng.below(1 << 44), wall, *rng.pick(&[0u64, 1, 1_000, 1_000_000_000, 86_400_000_000_000]))
 }
 
 #[derive(Clone, Debug, PartialEq, Eq, Serialize, Deserialize)]
@@ -68,6 +84,8 @@ pub struct ExecResult {
     pub context_switches: usize,
     /// lazy statics (MODULES, FUNCTIONS, CALL_ID, ...) that more than one task tried to initialise
     pub contended_lazies: usize,
+    /// how often rsass read a clock during the execution
+    pub clock_reads: u64,
 }
 
 /// Loader with the lookup rules of the spec test-runner (cwd + mock table).
@@ -163,6 +181,9 @@ pub fn execute(plan: &ExecPlan) -> ExecResult {
     };
     rsass_verif_sync::trace::take();
     rsass_verif_sync::trace::take_contended_lazies();
+    let (cm, cw, cs) = plan.clock.unwrap_or(REF_CLOCK);
+    rsass_verif_sync::time::sim::set(cm, cw, cs);
+    let clock_reads0 = rsass_verif_sync::time::sim::reads();
     rsass_verif_sync::trace::enable(true);
     let outcome = catch_unwind(AssertUnwindSafe(|| match plan.sched {
         Sched::Random => {
@@ -212,6 +233,7 @@ pub fn execute(plan: &ExecPlan) -> ExecResult {
         acquisitions: trace.len(),
         context_switches,
         contended_lazies,
+        clock_reads: rsass_verif_sync::time::sim::reads() - clock_reads0,
     }
 }
 
@@ -223,6 +245,7 @@ pub fn reference(item: &Item) -> Res {
         fastrand_seed: 0,
         yield_in_loader: false,
         tasks: vec![vec![item.clone()]],
+        clock: None,
     };
     let r = execute(&plan);
     match (&r.failure, r.results[0][0].clone()) {
